@@ -105,6 +105,7 @@ class Sched:
         audit: Callable[[str], None] | None = None,
         audit_p: float = 0.25,
         step_budget: int = STEP_BUDGET,
+        notrace: bool = False,
     ) -> None:
         self.mode = mode
         self.policy = policy if mode == "prng" else "explicit"
@@ -112,6 +113,7 @@ class Sched:
         self.rng = random.Random(f"sched:{seed}")
         self.audit_rng = random.Random(f"audit:{seed}")
         self.trace_nx = trace_nx
+        self.notrace = notrace  # sequential sweep populations: no pre-emption points inside operations
         self.audit = audit
         self.audit_p = audit_p
         self.step_budget = step_budget
@@ -227,7 +229,8 @@ class Sched:
         st.line = 0
         st.resumed = False
         self._point(None)  # op start is a pre-emption point (line 0)
-        sys.settrace(self._gtrace)
+        if not self.notrace:
+            sys.settrace(self._gtrace)
         try:
             try:
                 val = fn()
